@@ -13,12 +13,12 @@ use std::time::{Duration, Instant};
 pub fn sim_families(prop: &str) -> Vec<&'static str> {
     match prop {
         "C01" => vec!["life", "dag", "prefill", "redirect", "maxfails", "timelimit", "mn"],
-        "C02" => vec!["life", "reject", "open", "prefill", "redirect", "mn"],
+        "C02" => vec!["life", "reject", "open", "prefill", "redirect", "mn", "misc"],
         "C03" => vec!["dag", "open"],
         "C04" => vec!["prefill", "reject", "life"],
         "C05" => vec!["prefill", "redirect", "reject", "mn"],
         "C06" => vec!["prefill", "redirect", "crashlimit"],
-        "C07" => vec!["crashlimit", "mn", "redirect", "maxfails"],
+        "C07" => vec!["crashlimit", "mn", "redirect", "maxfails", "misc"],
         "C08" => vec!["life", "prefill", "redirect", "mn", "dag", "misc"],
         "C09" => vec![
             "life", "dag", "prefill", "redirect", "reject", "mn", "maxfails", "open", "crashlimit", "timelimit",
@@ -120,6 +120,7 @@ pub fn check_sim(prop: &str, tier: &str) -> i32 {
     let mut per_scenario = Vec::new();
     let mut machinery: Vec<String> = Vec::new();
     let mut vacuous = 0;
+    let mut cells: std::collections::BTreeMap<String, u64> = Default::default();
     for sc in &scs {
         let r = explore(
             sc,
@@ -135,6 +136,9 @@ pub fn check_sim(prop: &str, tier: &str) -> i32 {
         );
         if r.outcomes.len() <= 1 && r.max_enabled <= 1 {
             vacuous += 1;
+        }
+        for (k, v) in &r.cells {
+            *cells.entry(k.clone()).or_insert(0) += v;
         }
         machinery.extend(r.machinery_errors.iter().cloned());
         if r.audit_failures > 0 {
@@ -160,6 +164,21 @@ pub fn check_sim(prop: &str, tier: &str) -> i32 {
     );
     report.extra.insert("scenarios".into(), json!(per_scenario));
     report.extra.insert("vacuous_scenarios".into(), json!(vacuous));
+    // Appendix B: which (server-side task state, event) combinations the explored transitions hit
+    let expected_cells = [
+        "ready x sched-assign", "ready x sched-prefill", "prefilled x sched-retract",
+        "assigned x running", "assigned x failed", "assigned x reject", "assigned x cancel", "assigned x owner-or-target-lost",
+        "prefilled x running-prefilled", "prefilled x failed", "prefilled x cancel", "prefilled x owner-or-target-lost",
+        "retracting x running-prefilled", "retracting x retracted", "retracting x cancel", "retracting x owner-or-target-lost",
+        "retracting-redirect x running-prefilled", "retracting-redirect x retracted", "retracting-redirect x cancel",
+        "retracting-redirect x owner-or-target-lost", "running x finished", "running x failed", "running x cancel",
+        "running x owner-or-target-lost", "multinode x running", "multinode x finished", "multinode x failed", "multinode x cancel",
+        "multinode x owner-or-target-lost", "absent x running", "absent x finished", "absent x failed", "absent x retracted",
+        "absent x running-prefilled", "waiting-deps x cancel", "ready x cancel",
+    ];
+    let gaps: Vec<&str> = expected_cells.iter().copied().filter(|c| !cells.contains_key(*c)).collect();
+    report.extra.insert("state_event_cells_hit".into(), json!(cells));
+    report.extra.insert("state_event_cells_not_hit_by_this_check".into(), json!(gaps));
     report.extra.insert(
         "scheduling_memo".into(),
         json!({"hits": memo.hits, "misses": memo.misses, "audits": memo.audits, "audit_failures": memo.audit_failures}),
